@@ -106,21 +106,25 @@ def mediaRange (v : Bytes) : Option (Bytes × Bytes) :=
     if isToken t && isToken s && (t != ['*'] || s == ['*']) then some (lower t, lower s) else none
   | _ => none
 
+/-- the range grammar: a media-range for Accept, a token for the other three headers -/
+def rangeOK (media : Bool) (v : Bytes) : Bool := if media then (mediaRange v).isSome else isToken v
+
+/-- the weight of an element: 1 by default, the q parameter when there is exactly one -/
+def weightOf (ws : List Nat) : Option Nat :=
+  match ws with
+  | [] => some 1000
+  | [q] => some q
+  | _ => none
+
 /-- one stripped, non-empty list element; `media` selects the range grammar -/
 def element (media : Bool) (e : Bytes) : Option Range :=
   match splitOn ';' e with
   | [] => none
   | r :: ps =>
-    let v := strip r
-    let okRange := if media then (mediaRange v).isSome else isToken v
-    if !okRange then none
+    if !rangeOK media (strip r) then none
     else match params ps with
       | none => none
-      | some xs =>
-        match weights xs with
-        | [] => some { value := v, q := 1000 }
-        | [q] => some { value := v, q := q }
-        | _ => none
+      | some xs => (weightOf (weights xs)).map fun q => { value := strip r, q := q }
 
 def elements (media : Bool) : List Bytes → Option (List Range)
   | [] => some []
@@ -139,19 +143,22 @@ def ranges (media : Bool) (header : Bytes) : Option (List Range) := elements med
 def isSpaceC (c : Char) : Bool := c == ' ' || (9 ≤ c.toNat && c.toNat ≤ 13)
 def trimSpace (s : Bytes) : Bytes := ((s.dropWhile isSpaceC).reverse.dropWhile isSpaceC).reverse
 
+def b (x : String) : Bytes := x.toList
+
 /-- the documented short names of `Accepts` -/
-def shortNames : List (String × String) :=
-  [("html", "text/html"), ("json", "application/json"), ("xml", "application/xml"), ("text", "text/plain"),
-   ("txt", "text/plain"), ("png", "image/png"), ("jpg", "image/jpeg"), ("jpeg", "image/jpeg"), ("gif", "image/gif"),
-   ("webp", "image/webp"), ("svg", "image/svg+xml"), ("css", "text/css"), ("js", "application/javascript"),
-   ("javascript", "application/javascript"), ("pdf", "application/pdf"), ("zip", "application/zip"),
-   ("mp4", "video/mp4"), ("webm", "video/webm"), ("mp3", "audio/mpeg"), ("wav", "audio/wav")]
+def shortNames : List (Bytes × Bytes) :=
+  [(b "html", b "text/html"), (b "json", b "application/json"), (b "xml", b "application/xml"),
+   (b "text", b "text/plain"), (b "txt", b "text/plain"), (b "png", b "image/png"), (b "jpg", b "image/jpeg"),
+   (b "jpeg", b "image/jpeg"), (b "gif", b "image/gif"), (b "webp", b "image/webp"), (b "svg", b "image/svg+xml"),
+   (b "css", b "text/css"), (b "js", b "application/javascript"), (b "javascript", b "application/javascript"),
+   (b "pdf", b "application/pdf"), (b "zip", b "application/zip"), (b "mp4", b "video/mp4"),
+   (b "webm", b "video/webm"), (b "mp3", b "audio/mpeg"), (b "wav", b "audio/wav")]
 
 /-- an `Accepts` offer as (type, subtype): a short name or `type/subtype`, case-insensitive, blanks around -/
 def mediaOffer (o : Bytes) : Option (Bytes × Bytes) :=
   let m := lower (trimSpace o)
-  let full := match shortNames.find? (fun p => p.1.toList == m) with
-    | some p => p.2.toList
+  let full := match shortNames.lookup m with
+    | some f => f
     | none => m
   match splitOn '/' full with
   | [t, s] => if isToken t && isToken s && !t.contains '*' && !s.contains '*' then some (t, s) else none
